@@ -4,6 +4,18 @@
 One node, deterministic function `F` (uninterpreted: the output after a successful run on input `v`
 is recorded as `some v`, standing for `F v`).  Input `0` stands for NOT_DATA (not ready).
 The same history is applied to a node with `useCache = true` and to its twin with `false`.
+
+What the function does on an input is an `Outcome` (deterministic, `beh : Nat → Outcome`):
+returns, raises an `Exception`, raises `KeyboardInterrupt`, raises some other `BaseException`, or
+returns a value that `process_run_result` refuses (an exception in the done-callback path).
+`Runnable._run` (local) catches `(Exception, KeyboardInterrupt)`; `Runnable._finish_run` (local tail
+and future callback) catches `Exception` only — transcribed branch by branch below.
+
+Executor jobs are a queue (oldest first) of the inputs they were submitted with: a job can complete,
+be cancelled before it starts (`executor.shutdown(cancel_futures=True)` / `future.cancel()` — the
+done-callback sees `CancelledError`, an `Exception`), or be lost (`drop`: the executor forgets it,
+the future never resolves), after which the user resets the node by hand (`resetRunning`:
+`node.running = False`); a lost-and-reset job may still complete late.
 -/
 namespace PwVerif.Cache
 
@@ -14,10 +26,24 @@ structure Cfg where
   clearOnFail : Bool
   /-- a hit is only taken when the node is not running and the run would not be refused -/
   guardHit : Bool
+  /-- proposed: an admitted run drops the cache, and the inputs it was admitted with are recorded only
+  when the result of THAT run has been processed (current tree: recorded at admission) -/
+  commitOnSuccess : Bool
   deriving Repr, DecidableEq
 
-def Cfg.pinned : Cfg := { writeAfterGate := false, clearOnFail := false, guardHit := false }
-def Cfg.repaired : Cfg := { writeAfterGate := true, clearOnFail := true, guardHit := true }
+def Cfg.pinned : Cfg := { writeAfterGate := false, clearOnFail := false, guardHit := false, commitOnSuccess := false }
+/-- the tree as it is now (after fix 0699958) -/
+def Cfg.repaired : Cfg := { writeAfterGate := true, clearOnFail := true, guardHit := true, commitOnSuccess := false }
+/-- with fixes/C05-commit-cache-on-success.patch -/
+def Cfg.proposed : Cfg := { writeAfterGate := true, clearOnFail := true, guardHit := true, commitOnSuccess := true }
+
+inductive Outcome
+  | ok        -- returns a value
+  | exc       -- raises an `Exception`
+  | kbd       -- raises `KeyboardInterrupt`
+  | fatal     -- raises another `BaseException` (SystemExit, …)
+  | procbad   -- returns a value that `process_run_result` rejects (typed output channel)
+  deriving Repr, DecidableEq
 
 structure N where
   inp : Nat
@@ -25,60 +51,87 @@ structure N where
   running : Bool
   failed : Bool
   cached : Option Nat
-  job : Option Nat                 -- in-flight executor job: the input it was submitted with
+  jobs : List Nat                  -- outstanding executor jobs, oldest first: the input each was submitted with
   deriving Repr, DecidableEq
 
-def N.init : N := { inp := 0, out := none, running := false, failed := false, cached := none, job := none }
+def N.init : N := { inp := 0, out := none, running := false, failed := false, cached := none, jobs := [] }
 
 inductive Op
   | set (v : Nat)                  -- assign the input
   | run                            -- run locally
   | submit                         -- run on an executor
-  | complete                       -- the executor job finishes (callback)
+  | complete                       -- the oldest executor job finishes (callback)
   | clearFailed                    -- `node.failed = False`
+  | cancel                         -- every queued job is cancelled before it starts
+  | drop                           -- the executor loses the oldest job (its future never resolves)
+  | resetRunning                   -- `node.running = False` (manual reset after a lost job / a reload)
   deriving Repr, DecidableEq
 
 inductive R
   | ret (o : Option Nat)           -- returned outputs
-  | future | readiness | raised | locked | unit
+  | future | readiness | raised | interrupted | fatal | procraised | locked | unit
+  | escaped                        -- a `BaseException` left the done-callback
   deriving Repr, DecidableEq
 
 def N.ready (n : N) : Bool := !n.running && !n.failed && n.inp != 0
 
-/-- `bad v`: the (deterministic) function raises on input `v` -/
-def runLike (cfg : Cfg) (bad : Nat → Bool) (useCache : Bool) (n : N) (onExec : Bool) : N × R :=
+/-- `Runnable._run_exception` + `Node._run_exception` -/
+def N.fail (cfg : Cfg) (n : N) : N :=
+  { n with running := false, failed := true, cached := if cfg.clearOnFail then none else n.cached }
+
+/-- a result has been processed for the run admitted with input `v` -/
+def N.succeed (cfg : Cfg) (useCache : Bool) (n : N) (v : Nat) : N :=
+  { n with running := false, out := some v,
+           cached := if cfg.commitOnSuccess then (if useCache then some v else none) else n.cached }
+
+def runLike (cfg : Cfg) (beh : Nat → Outcome) (useCache : Bool) (n : N) (onExec : Bool) : N × R :=
   let hit := useCache && n.cached == some n.inp && (!cfg.guardHit || (!n.running && n.ready))
   if hit then (n, .ret n.out)
   else
-    let n1 := if useCache && !cfg.writeAfterGate then { n with cached := some n.inp } else n
+    let n1 := if useCache && !cfg.writeAfterGate && !cfg.commitOnSuccess then { n with cached := some n.inp } else n
     if !n.ready then (n1, .readiness)
     else
-      let n2 := if useCache && cfg.writeAfterGate then { n1 with cached := some n.inp } else n1
-      if onExec then ({ n2 with running := true, job := some n.inp }, .future)
-      else if bad n.inp then
-        ({ n2 with failed := true, cached := if cfg.clearOnFail then none else n2.cached }, .raised)
-      else ({ n2 with out := some n.inp }, .ret (some n.inp))
+      let n2 :=
+        if cfg.commitOnSuccess then { n1 with cached := none }
+        else if useCache && cfg.writeAfterGate then { n1 with cached := some n.inp } else n1
+      if onExec then ({ n2 with running := true, jobs := n2.jobs ++ [n.inp] }, .future)
+      else
+        match beh n.inp with
+        | .ok => (N.succeed cfg useCache n2 n.inp, .ret (some n.inp))
+        | .exc => (N.fail cfg n2, .raised)
+        | .kbd => (N.fail cfg n2, .interrupted)
+        | .fatal => ({ n2 with running := true }, .fatal)       -- not caught: no status change after `running = True`
+        | .procbad => (N.fail cfg n2, .procraised)
 
-def step (cfg : Cfg) (bad : Nat → Bool) (useCache : Bool) (n : N) : Op → N × R
+def step (cfg : Cfg) (beh : Nat → Outcome) (useCache : Bool) (n : N) : Op → N × R
   | .set v => if n.running then (n, .locked) else ({ n with inp := v }, .unit)
-  | .run => runLike cfg bad useCache n false
-  | .submit => runLike cfg bad useCache n true
+  | .run => runLike cfg beh useCache n false
+  | .submit => runLike cfg beh useCache n true
   | .complete =>
-    match n.job with
-    | none => (n, .unit)
-    | some v =>
-      if bad v then
-        ({ n with running := false, failed := true, job := none,
-                  cached := if cfg.clearOnFail then none else n.cached }, .unit)
-      else ({ n with running := false, out := some v, job := none }, .unit)
+    match n.jobs with
+    | [] => (n, .unit)
+    | v :: js =>
+      let n1 := { n with jobs := js }
+      match beh v with
+      | .ok => (N.succeed cfg useCache n1 v, .unit)
+      | .exc => (N.fail cfg n1, .unit)                           -- re-raised inside the callback, swallowed by the future
+      | .procbad => (N.fail cfg n1, .unit)
+      | .kbd => ({ n1 with running := false }, .escaped)          -- `except Exception` does not see it
+      | .fatal => ({ n1 with running := false }, .escaped)
   | .clearFailed => ({ n with failed := false }, .unit)
+  | .cancel =>
+    match n.jobs with
+    | [] => (n, .unit)
+    | _ :: _ => (N.fail cfg { n with jobs := [] }, .unit)        -- CancelledError is an Exception
+  | .drop => ({ n with jobs := n.jobs.tail }, .unit)
+  | .resetRunning => ({ n with running := false }, .unit)
 
 /-- apply a history, collecting what every operation returned -/
-def runOps (cfg : Cfg) (bad : Nat → Bool) (useCache : Bool) (n : N) : List Op → N × List R
+def runOps (cfg : Cfg) (beh : Nat → Outcome) (useCache : Bool) (n : N) : List Op → N × List R
   | [] => (n, [])
   | o :: os =>
-    let (n1, r) := step cfg bad useCache n o
-    let (n2, rs) := runOps cfg bad useCache n1 os
+    let (n1, r) := step cfg beh useCache n o
+    let (n2, rs) := runOps cfg beh useCache n1 os
     (n2, r :: rs)
 
 /-- what a user can see of a node -/
